@@ -70,7 +70,13 @@ fn hash_report<const P: u128>(rng: &mut Rng, n: usize, prog: &Program, order2: &
     s2m.set_compression(false);
     let s2 = s2m;
     let q2 = exec_sdd(&s2, &prog.ops);
-    let sem = SemanticSddBuilder::<P>::new(vt1.to_vtree());
+    // the compression flag of the hash-identified builder is part of its public configuration
+    // (every second program sets it; no random draw, so later cases are as before)
+    let mut sem_m = SemanticSddBuilder::<P>::new(vt1.to_vtree());
+    if prog.ops.len() % 2 == 0 {
+        sem_m.set_compression(true);
+    }
+    let sem = sem_m;
     let qs = exec_sem(&sem, &prog.ops);
     let k = prog.ops.len();
     let picks: Vec<usize> = (k.saturating_sub(4)..k).collect();
